@@ -221,3 +221,36 @@ Section TypiClust.
   Definition typiclust (k : nat) (sizes : list Z) (stream : list Z) : option (list step) :=
     tc_loop k sizes [] None stream.
 End TypiClust.
+
+(* ------------------------------------------------ sampling loops (Badge, Falcun) *)
+(* raw weights of the candidates at every step (numeric layer, oracle, >= 0); the picks of earlier
+   steps get weight 0; if nothing is left, every candidate that is not an earlier pick gets weight 1;
+   the sample is drawn by random_state.choice(p = weights / sum) - an oracle with the contract
+   "never returns an entry of probability 0" (Badge's first pick is the arg max instead); the
+   reported row is NaN at the earlier picks. *)
+Section SamplingLoop.
+  Definition zero_at (l : list Z) (idx : list nat) : list Z :=
+    map (fun jv => if memb (fst jv) idx then 0 else snd jv) (combine (seq 0 (length l)) l).
+
+  Definition sweights (raw : list Z) (prev : list nat) : list Z :=
+    let r := zero_at raw prev in
+    if forallb (Z.eqb 0) r then zero_at (repeat 1 (length raw)) prev else r.
+
+  Definition srow (raw : list Z) (prev : list nat) : list val :=
+    map (fun jv => if memb (fst jv) prev then None else Some (snd jv))
+        (combine (seq 0 (length raw)) (sweights raw prev)).
+
+  Fixpoint sampling_trace (raws : list (list Z)) (picks prev : list nat) : list step :=
+    match raws, picks with
+    | r :: rt, p :: pt => (p, srow r prev) :: sampling_trace rt pt (prev ++ [p])
+    | _, _ => []
+    end.
+
+  (* the choice contract along the trace: the drawn candidate has positive weight *)
+  Fixpoint contract_ok (raws : list (list Z)) (picks prev : list nat) : bool :=
+    match raws, picks with
+    | r :: rt, p :: pt => (0 <? nth p (sweights r prev) 0) && contract_ok rt pt (prev ++ [p])
+    | [], [] => true
+    | _, _ => false
+    end.
+End SamplingLoop.
